@@ -316,11 +316,20 @@ Definition c13_check (c : ecase) : option string :=
   | _, _ => None
   end.
 
-Definition c20_check (c : ecase) : option string :=
-  match extra c "recased" with
-  | Some r => if results_eqb r (k_obs c) then None else Some "case_invariant"
-  | None => None
+Definition same_pair (c : ecase) (a b clause : string) : option string :=
+  match extra c a, extra c b with
+  | Some x, Some y => if results_eqb x y then None else Some clause
+  | _, _ => None
   end.
+
+Definition c20_check (c : ecase) : option string :=
+  first_some [ match extra c "recased" with
+               | Some r => if results_eqb r (k_obs c) then None else Some "case_invariant"
+               | None => None
+               end;
+               (* the pipeline search and the search with a semantic index attached, asked again in capitals and with other blanks *)
+               same_pair c "pipe_phrase" "pipe_phrase_respelled" "pipeline_search_spelling_invariant";
+               same_pair c "emb" "emb_respelled" "semantic_stage_case_invariant" ].
 
 (* ---------------------------------------------------------------- reports *)
 
